@@ -999,6 +999,10 @@ def run(ctx, bt):
     n = ctx.scale(320, 4000)
     cases = [gen_case(ctx.rng, VARIANTS[i % len(VARIANTS)] if i < 2 * len(VARIANTS) else None) for i in range(n)]
     judge(ctx, bt, cases, corr="report")
+    # ReplayTransactions / SimulateRFQTransactions as whole programs (`Bt.Prog.progRunR`, the subject of `C18.replay_positions`):
+    # complete backtests, every node history compared with the model bit for bit
+    from .. import whole_run_r as WR
+    WR.blotter_whole_run_protocol(ctx, bt, ctx.scale(12, 200), "whole-run-r[C18]")
     # the framework starts the failing-input search only when there is no violation at all; listed findings are always
     # present here (the corpus witnesses), so start it ourselves when every violation so far is a listed one
     if ctx.disagreements and ctx.violations:
